@@ -318,7 +318,7 @@ def describe_sig(evs, ev, inv, bad):
            "startup": " (sent %s ms after the process was started, without waiting for a report)" % st.get("after_ms"),
            "full": "; the result destination is /dev/full",
            "grpc": "; grpc gun", "mixed": "; one phout and one jsonlines pool",
-           "backpr": "; queue 8, 4 KiB buffer, a pipe slower than the load (back-pressure)"}.get(scen, "")
+           "backpr": "; queue 16, 4 KiB buffer, a pipe slower than the load (back-pressure)"}.get(scen, "")
     return ("signal%s sig=%s kind=%s pipe=%s inv=%s bad=%s" % (" scen=" + scen if scen else "", st.get("sig"), st.get("kind"), st.get("pipe"), inv, bad),
             "pandora (%s, %s rps, %s instances in %s pool(s), %s sink, GOMAXPROCS=%s) stopped with SIG%s %s ms into the run%s: %s reports had returned "
             "before the signal, %s begun at exit; result has %s lines (+%s counted drops, %s malformed), last line complete=%s, "
